@@ -122,6 +122,54 @@ func (e *Environment) LocalSource(name string) (BindingSource, bool) {
 	return BindingUser, false
 }
 
+// snapshot returns a new scope that holds a copy of every binding visible
+// from e below root; root itself (the module scope) stays the parent. An async
+// block runs on such a snapshot: it sees the variables as they were when it
+// was spawned and shares no map with the scopes its parent keeps writing to.
+// Objects and arrays are copied too, so the block and its parent do not
+// mutate the same value from two goroutines.
+func (e *Environment) snapshot(root *Environment) *Environment {
+	var chain []*Environment
+	s := e
+	for ; s != nil && s != root; s = s.parent {
+		chain = append(chain, s)
+	}
+	var snap *Environment
+	if s != nil {
+		snap = NewChildEnvironment(root)
+	} else {
+		snap = NewEnvironment()
+	}
+	for k := len(chain) - 1; k >= 0; k-- {
+		for name, b := range chain[k].vars {
+			snap.vars[name] = binding{value: copyPlainData(b.value), source: b.source}
+		}
+	}
+	snap.typeBindings = e.enclosingTypeBindings()
+	snap.depth = new(int64) // the block runs on its own goroutine
+	return snap
+}
+
+// copyPlainData deep-copies objects and arrays; every other value (numbers,
+// strings, futures, closures, provider handles) is returned as it is.
+func copyPlainData(v interface{}) interface{} {
+	switch x := v.(type) {
+	case map[string]interface{}:
+		m := make(map[string]interface{}, len(x))
+		for k, e := range x {
+			m[k] = copyPlainData(e)
+		}
+		return m
+	case []interface{}:
+		a := make([]interface{}, len(x))
+		for k, e := range x {
+			a[k] = copyPlainData(e)
+		}
+		return a
+	}
+	return v
+}
+
 // Get retrieves a variable value from the environment or parent scopes
 func (e *Environment) Get(name string) (interface{}, error) {
 	if b, ok := e.vars[name]; ok {
